@@ -145,6 +145,8 @@ func (s Step) String() string {
 type Case struct {
 	Cfg      Cfg    `json:"cfg"`
 	StartSeq uint16 `json:"start_seq"`
+	// StartSeqs, when set, gives every target (format) its own first sequence number
+	StartSeqs []uint16 `json:"start_seqs,omitempty"`
 	Kind     string `json:"kind"` // seq | place
 	Steps    []Step `json:"steps,omitempty"`
 	Gen      *Gen   `json:"gen,omitempty"`
@@ -510,6 +512,9 @@ func newWorld(cs Case) (*world, error) {
 	w.ts = make([]uint32, len(targets))
 	for i := range targets {
 		w.seq[i] = cs.StartSeq
+		if i < len(cs.StartSeqs) {
+			w.seq[i] = cs.StartSeqs[i]
+		}
 		w.ts[i] = 1000
 	}
 	if w.cfg.Dir == dirRelay {
